@@ -260,6 +260,13 @@ def corpus(ck):
         A("seq_len_%d" % L, [fa([("a", "ACGT" * (L // 4) + "A" * (L % 4)), ("b", "ACGA" * (L // 4) + "C" * (L % 4)), ("c", "ACGT" * 10)])])
     for n in (511, 512, 513, 1025):
         A("records_%d" % n, [fa([("s%d" % i, "MKVLDEFWHIK"[: 5 + i % 6] + "LMPQ") for i in range(n)])])
+    # accumulating several files into one msa: capacity boundaries of merge_msa / resize_msa (512-record steps)
+    mk = lambda a, b: fa([("s%d" % i, "MKVLDEFWHIK"[: 5 + i % 6] + "LMPQ") for i in range(a, b)])
+    A("merge_3_plus_1100", [mk(0, 3), mk(3, 1103)])
+    A("merge_511_plus_2", [mk(0, 511), mk(511, 513)])
+    A("merge_512_plus_513", [mk(0, 512), mk(512, 1025)])
+    A("merge_600_600_600", [mk(0, 600), mk(600, 1200), mk(1200, 1800)])
+    A("merge_2_plus_510_plus_1", [mk(0, 2), mk(2, 512), mk(512, 513)])
     A("input_lines_gt_1024", [(">a\n" + "ACGT\n" * 1100 + ">b\n" + "ACGA\n" * 500 + ">c\nACGT\n").encode()])
     A("input_lines_gt_1536", [(">a\n" + "ACGT\n" * 1600 + ">b\n" + "ACGA\n" * 100).encode()])
     A("output_lines_gt_1024_clu", [fa([("s%d" % i, "MKVLDEFWHIKLMPQRS" * 8) for i in range(400)])], ["-f", "clu"])
